@@ -46,6 +46,35 @@ Theorem C19_before_exchange :
         r = RRaised ConnectError /\ forall e, In e ev -> is_exchange e = false).
 Proof. exact connect_order. Qed.
 
+(** One composition object over several [connect()] attempts ([cstate]: connected flag and the
+    adapter set remembered by [Composition._adapters]).  If the composition is not connected yet and
+    every remembered adapter is (still) below an output of the composition - which is the case when
+    links were only added since earlier, rejected attempts - then a [connect()] whose validation
+    passes succeeds and the link list reported afterwards (outputs in index order, then the
+    remembered adapters with their targets as they are NOW) is a permutation of the created links. *)
+Theorem C19_retry_links_exact :
+  forall (s : cstate) (t : topo),
+    s_connected s = false -> wf t -> validate t = VOk ->
+    (forall id, In id (s_adapters s) -> In id (map nid (owned_nodes t))) ->
+    forall s' ev r, connect_st s t = (s', (ev, r)) ->
+      r = RDone /\ s_connected s' = true
+      /\ Permutation (metadata_links_of s' t) (created_links t).
+Proof. exact retry_links_exact. Qed.
+
+(** A [connect()] that raises leaves the connected flag as it was and its trace has no component
+    connect / exchange event; on a not yet connected composition the error is FinamConnectError from
+    the validation and the only thing left behind are adapters found on the links of that wiring. *)
+Theorem C19_failed_attempt_clean :
+  forall (s : cstate) (t : topo) (s' : cstate) (ev : list event) (e : exc),
+    connect_st s t = (s', (ev, RRaised e)) ->
+    s_connected s' = s_connected s
+    /\ (forall x, In x ev -> is_exchange x = false)
+    /\ (s_connected s = false ->
+        e = ConnectError /\ validate t <> VOk
+        /\ forall id, In id (s_adapters s') ->
+             In id (s_adapters s) \/ In id (map nid (collect_raw t))).
+Proof. exact failed_attempt_clean. Qed.
+
 (* ------------------------------------------------------------------------- *)
 (** Non-vacuity. *)
 
@@ -110,6 +139,34 @@ Example C19_before_exchange_nonvacuous :
   /\ connect true ex_ok = ([], RRaised StatusError).
 Proof. repeat split; vm_compute; reflexivity. Qed.
 
+(** first attempt: A.O0 >> Scale0 >> B.I0, B.I1 unlinked (rejected);
+    repair: Scale0 >> Scale1 >> Scale2 >> B.I1; second attempt *)
+Definition ex_first : topo :=
+  mkT [(0, 1); (2, 0)] [(Some oA, [Node (scale 0) [Leaf iB0]])].
+Definition ex_repaired : topo :=
+  mkT [(0, 1); (2, 0)]
+      [(Some oA, [Node (scale 0) [Leaf iB0; Node (scale 1) [Node (scale 2) [Leaf iB1]]]])].
+
+Example C19_retry_nonvacuous :
+  exists s1 ev1,
+    connect_st fresh ex_first = (s1, (ev1, RRaised ConnectError))
+    /\ s_connected s1 = false /\ s_adapters s1 = [0]
+    /\ wf ex_repaired /\ validate ex_repaired = VOk
+    /\ (forall id, In id (s_adapters s1) -> In id (map nid (owned_nodes ex_repaired)))
+    /\ metadata_links_of (fst (connect_st s1 ex_repaired)) ex_repaired =
+       [(NOut (Some 0) 0, NAda 0); (NAda 0, NIn (Some 1) 0); (NAda 0, NAda 1);
+        (NAda 1, NAda 2); (NAda 2, NIn (Some 1) 1)]
+    /\ metadata_links_of s1 ex_repaired =   (* what a stale adapter set would report *)
+       [(NOut (Some 0) 0, NAda 0); (NAda 0, NIn (Some 1) 0); (NAda 0, NAda 1)].
+Proof.
+  eexists. eexists. split; [vm_compute; reflexivity|].
+  split; [reflexivity|]. split; [reflexivity|].
+  split; [apply wfb_wf; vm_compute; reflexivity|]. split; [vm_compute; reflexivity|].
+  split; [intros id [<-|[]]; vm_compute; auto|]. split; vm_compute; reflexivity.
+Qed.
+
 Print Assumptions C19_exact.
 Print Assumptions C19_links_exact.
 Print Assumptions C19_before_exchange.
+Print Assumptions C19_retry_links_exact.
+Print Assumptions C19_failed_attempt_clean.
